@@ -272,9 +272,9 @@ def gen_param(r: random.Random, kind: str) -> dict:
 
 
 CTX_FOR = {
-    "int": ["arg", "arg2", "inlinectx", "case", "dmode", "switchhdr", "casetext_key", "menu2", "casevalue"],
+    "int": ["arg", "arg2", "inlinectx", "case", "dmode", "switchhdr", "casetext_key", "menu2", "casevalue", "ctxtarget", "ctxtarget_with"],
     "fixed": ["arg", "arg2", "inlinectx"],
-    "const": ["arg", "arg2", "inlinectx", "case", "switchhdr", "menu2", "casevalue"],
+    "const": ["arg", "arg2", "inlinectx", "case", "switchhdr", "menu2", "casevalue", "ctxtarget", "ctxtarget_with"],
     "str": ["arg", "arg2", "inlinectx", "menu", "casetext", "defaulttext", "switchhdr"],
     "lang": ["arg", "arg2", "inlinectx", "menu", "casetext", "defaulttext", "switchhdr"],
     "pos": ["arg", "arg2", "inlinectx"],
@@ -811,6 +811,8 @@ def run(run: core.Run) -> int:
             if ctx == "dmode":
                 # the four modes, and numbers that are not a mode (they stand for themselves)
                 p = {"t": "int", "v": r.choice([0, 1, 2, 3, 0, 1, 2, 3, 4, 7, -1, 255])}
+            if ctx.startswith("ctxtarget") and kind == "int" and r.random() < 0.3:
+                p = {"t": "int", "v": 0}         # actor / object / performer number 0 is an ordinary target
             e2e.append({"param": p, "ctx": ctx, "depth": r.choice([0, 0, 1, 2, 3, 4]), "dec": r.choice(["exps", "exps", "ssbs"])})
         eres = _pool_map(pool, "harness.impl_lit:e2e_cases", e2e, 60, 300)
         lreq: list[dict] = []
